@@ -664,7 +664,9 @@ class World:
                 and os.path.realpath(args[-1]).startswith(root + os.sep):
             with open(args[-1]) as f:
                 source = f.read()
-            args = list(args[:-1]) + ['<SRC>']
+            rel = os.path.relpath(os.path.realpath(args[-1]), root)
+            # a file in act/ or tmp/ is named; one in the internal directories (source file of an interpreter) is not
+            args = list(args[:-1]) + ['<SDS>/' + rel if rel.split(os.sep)[0] in ('act', 'tmp') else '<SRC>']
         stdin_text = None
         if stdin is not None and hasattr(stdin, 'read'):
             stdin_text = stdin.read()
@@ -1198,6 +1200,32 @@ SYMBOL_FORMS = {
     'exit-code == INTEGER-FROM-SYMBOL': (
         'assert', ('exit-code == @[N]@',), ('def string N = 0',), ('def string N = 5+2',),
         dict(act_a=('% act-probe',), act_b=('% act-probe-exit7',))),
+    'num-lines == INTEGER-FROM-SYMBOL': (
+        'assert', (_CONTENTS + ' num-lines == @[N]@',), _F1 + ('def string N = 1',), _F2 + ('def string N = 4-2',)),
+    'filter -line-nums TWO-RANGES-FROM-SYMBOLS': (
+        'assert', (_CONTENTS, '    -transformed-by filter -line-nums @[R1]@ @[R2]@', _EQUALS),
+        _F2 + ('def string R1 = 1', 'def string R2 = 1:1', _EXP_FIRST),
+        _F2 + ('def string R1 = 2:', 'def string R2 = -1', _EXP_SECOND)),
+    'text-matcher matches REGEX-FROM-SYMBOL': (
+        'assert', (_CONTENTS + ' matches @[RE]@',), _F1 + ('def string RE = ^first$',), _F2 + ('def string RE = second',)),
+    'files selected by GLOB-FROM-SYMBOL': (
+        'assert', ('dir-contents . : -selection name @[GLOB]@ num-files == 1',),
+        _F1 + ('def string GLOB = f.*',), ("file g.txt = 'g'", 'def string GLOB = g.*')),
+    'file contents from PATH-FROM-SYMBOL': (
+        'before-assert', ('file out.probe = -contents-of @[P]@', '% probe'),
+        ("file in-a.txt = 'contents of a'", 'def path P = -rel-act in-a.txt'),
+        ("file -rel-tmp in-b.txt = 'contents of b'", 'def path P = -rel-tmp in-b.txt')),
+    'path relative to PATH-SYMBOL': (
+        'assert', ('exists -rel D f.txt',),
+        ('dir da', "file da/f.txt = 'x'", 'def path D = -rel-act da'),
+        ('dir -rel-tmp db', "file -rel-tmp db/f.txt = 'x'", 'def path D = -rel-tmp db')),
+    'symbol defined by the suite from a symbol of the case': (
+        'before-assert', ('def string W = @[V]@-suffix', '% probe @[W]@'), ('def string V = of-a',), ('def string V = of-b',)),
+    'program of an assertion with argument from symbol': (
+        'assert', ('stdout -from % output-probe @[V]@', '    is-empty'), ('def string V = of-a',), ('def string V = of-b',)),
+    'existing-file program argument from PATH-SYMBOL': (
+        'cleanup', ('% probe -existing-file @[P]@',),
+        ("file in-a.txt = 'x'", 'def path P = -rel-act in-a.txt'), ("file in-b.txt = 'x'", 'def path P = -rel-act in-b.txt')),
     'file relative to the home directory of the case': (
         'before-assert', ('copy -rel-home data.txt out.probe', '% probe'), (), (),
         dict(b_path='bdir/b.case', files={'s/data.txt': 'data of a', 's/bdir/data.txt': 'data of b'})),
